@@ -217,6 +217,10 @@ func buildPool(g simkit.G) *pool {
 			p.sx[i] = v2
 			p.sy[i] = 10*g.Unit() - 5
 		}
+		if g.Chance(1, 3) {
+			// a missing observation, as callers encode it: NaN (not in the last position)
+			p.sy[g.Intn(m-1)] = math.NaN()
+		}
 		p.trackF("sorted fit xs", p.sx)
 		p.trackF("fit ys for sorted xs", p.sy)
 		// weights of extreme magnitude for the fits
@@ -228,7 +232,8 @@ func buildPool(g simkit.G) *pool {
 		p.trackF("extreme-magnitude weights", p.xwts)
 	}
 	if g.Chance(1, 16) {
-		n := 16400 + g.Intn(4000)
+		// beyond plausible "go parallel / switch algorithm" thresholds: 2^14, 2^15, 2^16
+		n := []int{16400, 16400, 33000, 33000, 66000}[g.Intn(5)] + g.Intn(4000)
 		p.huge = mkF(n)
 		for i := range p.huge {
 			p.huge[i] = 1e3*g.Unit() - 300 + 1e-7*float64(i%97)
